@@ -206,18 +206,18 @@ theorem guard_indent_pos (s : Str) (i j : Nat) (single : Bool) (hi : i ≠ 0) (h
     Guard s i single = Guard s j single := by
   simp [Guard, GuardM, hi, hj]
 
-/-- every printing context other than the switch header prints at an indent ≥ 1, at every nesting depth -/
-theorem ctxIndent_pos (c : PrintCtx) (d : Nat) (h : c ≠ .switchHeader) : ctxIndent c d ≠ 0 := by
-  cases c <;> simp [ctxIndent] at *
+/-- every printing context prints at an indent ≥ 1, at every nesting depth (the switch header too, since the repair) -/
+theorem ctxIndent_pos (c : PrintCtx) (d : Nat) : ctxIndent c d ≠ 0 := by
+  cases c <;> simp [ctxIndent]
 
 /-- A constant string inside the guard for indent 1 (no clause about its last line) survives in every printing context
-other than the switch header (operation argument, `menu(…)` case header, message-switch text, SsbScript argument), at
-every nesting depth. -/
-theorem const_string_roundtrip_ctx (c : PrintCtx) (d : Nat) (s rest : Str) (hc : c ≠ .switchHeader)
+(operation argument, `menu(…)` case header, message-switch text, switch header, SsbScript argument), at every nesting
+depth. -/
+theorem const_string_roundtrip_ctx (c : PrintCtx) (d : Nat) (s rest : Str)
     (hg : Guard s 1 true = true) (hr : rest.head? ≠ some SQ) :
     readString (constStr s (ctxIndent c d) ++ rest) = some s :=
   const_string_roundtrip s _ rest
-    (by rw [guard_indent_pos s _ 1 true (ctxIndent_pos c d hc) (by decide)]; exact hg) hr
+    (by rw [guard_indent_pos s _ 1 true (ctxIndent_pos c d) (by decide)]; exact hg) hr
 
 /-- The values of a language string are printed one level deeper than the parameter: inside the guard for indent 1
 they survive in EVERY printing context, the switch header included. -/
@@ -227,9 +227,11 @@ theorem langstring_value_roundtrip_ctx (c : PrintCtx) (d : Nat) (v rest : Str)
   read_repr_string v _ false rest
     (by rw [guard_indent_pos v _ 1 false (by omega) (by decide)]; exact hg) (by simpa [quoteOf] using hr)
 
-/-- the switch header is the one context at indent 0: there (and only there) a value with a blank last line is lost -/
+/-- indent 0 (no printing context prescribes it any more; before the repair the switch header did) is where a value with
+a blank last line is lost; at the indent every context prescribes it survives -/
 theorem switch_header_counterexample :
-    ctxIndent .switchHeader 3 = 0 ∧ ¬ Roundtrips ['x', NL, ' '] (ctxIndent .switchHeader 3) true [',', ' ', '1', ')'] ∧
+    ctxIndent .switchHeader 3 = 4 ∧ ¬ Roundtrips ['x', NL, ' '] 0 true [',', ' ', '1', ')'] ∧
+    Roundtrips ['x', NL, ' '] (ctxIndent .switchHeader 3) true [',', ' ', '1', ')'] ∧
     Roundtrips ['x', NL, ' '] (ctxIndent .menuHeader 3) true [')', ':'] ∧
     Roundtrips ['x', NL, ' '] (ctxIndent .msgText 0) true [NL] ∧ Roundtrips ['x', NL, ' '] (ctxIndent .opArg 4) true [')', ';'] ∧
     Roundtrips ['x', NL, ' '] (ctxIndent .ssbsArg 2) true [',', ' '] := by decide +kernel
